@@ -1036,7 +1036,11 @@ class TeX(object):
         self.cast()
 
         """
-        return type(self.normalize(tokens))
+        value = self.normalize(tokens)
+        # An argument with an inner { } group comes back as nodes
+        if not isinstance(value, str) and hasattr(value, 'textContent'):
+            value = value.textContent
+        return type(value)
 
     def castLabel(self, tokens, **kwargs):
         """
